@@ -318,7 +318,8 @@ Definition step (w : world) (e : ev) : world * obs :=
   | Bind h port lip =>
       match find_host w h with
       | Some hs =>
-          if port_assigned hs port then (w, OErr 1)
+          if negb (is_unspec lip || is_loop lip) then (w, OErr 4)   (* verify_ipv4_bind_interface *)
+          else if port_assigned hs port then (w, OErr 1)
           else (upd_host w h (fun hs => {| h_id := h_id hs;
                    h_binds := h_binds hs ++ [{| b_port := port; b_ip := lip; b_target := None; b_bcast := false;
                                                 b_mloop := true; b_queue := []; b_stash := None |}] |}), OUnit)
